@@ -711,8 +711,9 @@ class tensor:
             )
         rprod = 1 if rdims.size == 0 else np.prod(np.array(tshape)[rdims])
         cprod = 1 if cdims.size == 0 else np.prod(np.array(tshape)[cdims])
+        # (transpose directly: permute() always returns an independent tensor)
         data = np.reshape(
-            self.permute(dims).data,
+            to_memory_order(np.transpose(self.data, dims), self.order),
             (rprod, cprod),
             order=self.order,
         )
@@ -1268,9 +1269,10 @@ class tensor:
 
         # Np transpose does error checking on order, acts as permutation
 
-        return ttb.tensor(
-            to_memory_order(np.transpose(self.data, order), self.order), copy=False
-        )
+        data = to_memory_order(np.transpose(self.data, order), self.order)
+        if np.shares_memory(data, self.data):
+            data = data.copy(order=self.order)
+        return ttb.tensor(data, copy=False)
 
     def reshape(self, shape: Shape) -> tensor:
         """
